@@ -383,6 +383,9 @@ type upstream struct{ sn *seen }
 func (up *upstream) ServeDNS(ctx context.Context, rw dnsserver.ResponseWriter, req *dns.Msg) error {
 	name := strings.ToLower(req.Question[0].Name)
 	up.sn.upstream = append(up.sn.upstream, name)
+	// The code the upstream gives is in the name, in a label of its own or
+	// after a prefix.
+	marked := func(m string) bool { return strings.HasPrefix(name, m) || strings.Contains(name, "-"+m) }
 	ri := agd.MustRequestInfoFromContext(ctx)
 	who := "anonymous"
 	if p, d := ri.DeviceData(); p != nil {
@@ -393,12 +396,29 @@ func (up *upstream) ServeDNS(ctx context.Context, rw dnsserver.ResponseWriter, r
 	resp := (&dns.Msg{}).SetReply(req)
 	resp.RecursionAvailable = true
 	switch {
-	case strings.Contains(name, "-nx-"):
+	case marked("nx-"):
 		resp.Rcode = dns.RcodeNameError
 
 		return rw.WriteMsg(ctx, req, resp)
-	case strings.Contains(name, "-sf-"):
+	case marked("sf-"):
 		resp.Rcode = dns.RcodeServerFailure
+
+		return rw.WriteMsg(ctx, req, resp)
+	case marked("rf-"):
+		resp.Rcode = dns.RcodeRefused
+
+		return rw.WriteMsg(ctx, req, resp)
+	case marked("bv-"), marked("bc-"):
+		// Codes of more than four bits travel partly in the OPT record, so
+		// only a query with one can be given them.
+		resp.Rcode = dns.RcodeServerFailure
+		if opt := req.IsEdns0(); opt != nil {
+			resp.Rcode = dns.RcodeBadVers
+			if marked("bc-") {
+				resp.Rcode = dns.RcodeBadCookie
+			}
+			resp.SetEdns0(opt.UDPSize(), opt.Do())
+		}
 
 		return rw.WriteMsg(ctx, req, resp)
 	}
@@ -1011,9 +1031,10 @@ func genRequest(t *kernel.Tape, u *universe, servers map[string]*agd.Server, kin
 	// Names: unique per request, with a behaviour prefix or an access-rule
 	// suffix.
 	base := fmt.Sprintf("n%d", i)
-	// What the upstream says about the name: it exists, does not exist, or
-	// cannot be resolved.
-	base = kernel.Pick(t, []string{"", "", "", "nx-", "sf-"}, "upstream-rcode") + base
+	// What the upstream says about the name: it exists, does not exist,
+	// cannot be resolved, is refused, or gets one of the codes that need an
+	// OPT record.
+	base = kernel.Pick(t, []string{"", "", "", "nx-", "sf-", "", "", "", "rf-", "bv-", "bc-"}, "upstream-rcode") + base
 	switch t.Choose(11, "name-kind") {
 	case 10:
 		// A connectivity probe of Android's private DNS: the resolver asks
